@@ -16,6 +16,19 @@ Civil(e) == <<e.civil[1], e.civil[2], e.civil[3], e.civil[4], e.civil[5]>>
 ObsVar(vs, nm) == vs[CHOOSE k \in 1..Len(vs) : vs[k].name = nm]
 HasVar(vs, nm) == \E k \in 1..Len(vs) : vs[k].name = nm
 
+\* what a variable looks like after one time step has been selected (onestep >= 0): the "t" dimension is gone
+DropAtP(sq, p) == SubSeq(sq, 1, p - 1) \o SubSeq(sq, p + 1, Len(sq))
+TPos(v) == IF \E p \in 1..Len(v.dims) : v.dims[p] = "t" THEN CHOOSE p \in 1..Len(v.dims) : v.dims[p] = "t" ELSE 0
+OneStep(e) == IF "onestep" \in DOMAIN e THEN e.onestep ELSE -1
+ExpectedVar(v, e) ==
+  IF OneStep(e) < 0 \/ TPos(v) = 0
+  THEN [dims |-> v.dims, shape |-> v.shape, data |-> [p \in 1..ProdSeq(v.shape) |-> VarAtIdx(v, UnravelRM(v.shape, p - 1))]]
+  ELSE LET p == TPos(v)  rs == DropAtP(v.shape, p)
+       IN [dims |-> DropAtP(v.dims, p), shape |-> rs,
+           data |-> [q \in 1..ProdSeq(rs) |->
+                       LET ridx == UnravelRM(rs, q - 1)
+                       IN VarAtIdx(v, SubSeq(ridx, 1, p - 1) \o <<OneStep(e)>> \o SubSeq(ridx, p, Len(ridx)))]]
+
 Names == {"Returned", "EmsForm", "SameInstant",
           "Saved", "UnitsEmsForm", "UnitsSameInstant", "TimeInstantsIdentical", "SameConvention", "PolygonsIdentical",
           "ValuesIdentical", "NoNewFillAttrs"}
@@ -44,9 +57,8 @@ Holds(name, ww, e) ==
          Is(e, "SaveOpen") =>
             \A i \in 1..Len(ww.vars) :
                /\ HasVar(e.obs.ok.vars, ww.vars[i].name)
-               /\ LET o == ObsVar(e.obs.ok.vars, ww.vars[i].name)  v == ww.vars[i]
-                  IN o.dims = v.dims /\ o.shape = v.shape
-                     /\ o.data = [p \in 1..ProdSeq(v.shape) |-> VarAtIdx(v, UnravelRM(v.shape, p - 1))]
+               /\ LET o == ObsVar(e.obs.ok.vars, ww.vars[i].name)  x == ExpectedVar(ww.vars[i], e)
+                  IN o.dims = x.dims /\ o.shape = x.shape /\ o.data = x.data
     [] name = "NoNewFillAttrs" ->
          Is(e, "SaveOpen") => {e.obs.ok.fillattrs[k] : k \in 1..Len(e.obs.ok.fillattrs)} \subseteq {e.infillattrs[k] : k \in 1..Len(e.infillattrs)}
 
@@ -57,6 +69,7 @@ SeenOf(ww, e) == {e.a, "period-" \o e.period, "style-" \o e.style}
   \cup (IF e.off # 0 /\ e.off > -600 /\ e.off < 600 THEN {"single-digit-hour-offset"} ELSE {})
   \cup (IF e.off = 0 THEN {"zero-offset"} ELSE {})
   \cup (IF e.a = "SaveOpen" THEN {ww.conv} ELSE {})
+  \cup (IF e.a = "SaveOpen" /\ OneStep(e) >= 0 THEN {"scalar-time"} ELSE {})
   \cup (IF e.a = "Format" /\ LocalCivil(UtcMinutes(Civil(e), e.off), 0)[3] # e.civil[3] THEN {"utc-date-differs"} ELSE {})
 
 Done == t > Len(Log)
